@@ -116,8 +116,9 @@ func flatten(root *Node, m map[string]any, tag string, out url.Values) (bool, st
 				}
 				for _, e := range l {
 					s, ok := scalarString(e)
-					if !ok || s == "" {
-						return false, "nil / empty-string list elements are not expressible in a flat source"
+					if !ok || (s == "" && len(l) < 2) {
+						// (a parameter repeated with blank values IS a list of blanks; a single blank value reads as "")
+						return false, "nil list elements, and a single empty-string element, are not expressible in a flat source"
 					}
 					out[key] = append(out[key], s)
 				}
